@@ -141,9 +141,11 @@ fn record(args: &Args) {
             }
         }
     }
-    let merges = if args.thorough { 400 } else { 80 };
+    let merges = if args.thorough { 160 } else { 80 };
     for _ in 0..merges {
-        let (na, nb) = (rng.below(if args.thorough { 721 } else { 120 }) as usize, rng.below(if args.thorough { 721 } else { 120 }) as usize);
+        let big = args.thorough && rng.chance(1, 20);
+        let cap = if big { 721 } else { 120 };
+        let (na, nb) = (rng.below(cap) as usize, rng.below(cap) as usize);
         let span = *rng.pick(&[3u64, 20, 720, 65536]);
         let a: Vec<u64> = (0..na).map(|_| rng.below(span)).collect();
         let b: Vec<u64> = (0..nb).map(|_| rng.below(span)).collect();
